@@ -188,17 +188,21 @@ Proof.
   - exfalso. eapply find_none in F; [|exact Hw]. apply negb_false_iff in F. apply clear_b_iff in F. exact (Hnc F).
 Qed.
 
-(* shape of the server results *)
+(* shape of the server results: one OK entry per distribution point, or a single Revoked /
+   Unknown entry *)
+Definition CrlEntries (urls : list Z) (verdict : rres) (srv : list sres) : Prop :=
+  match verdict with
+  | ROK => srv = map (SRes ROK) urls
+  | RNonRevokable => False
+  | RUnknown => exists u, In u urls /\ srv = [SRes RUnknown u]
+  | RRevoked => exists u, In u urls /\ srv = [SRes RRevoked u]
+  end.
+
 Theorem shape urls : urls <> [] ->
   let c := fst (crl_check fetch now st serial freshest urls) in
-  cr_method c = MCRL /\
-  match cr_result c with
-  | ROK => cr_servers c = map (SRes ROK) urls
-  | RNonRevokable => False
-  | r => exists u, In u urls /\ cr_servers c = [SRes r u]
-  end.
+  cr_method c = MCRL /\ CrlEntries urls (cr_result c) (cr_servers c).
 Proof.
-  intros Hne c. subst c. rewrite crl_check_exact by exact Hne.
+  intros Hne c. subst c. rewrite crl_check_exact by exact Hne. unfold CrlEntries.
   destruct (find _ urls) as [u|] eqn:F.
   - apply find_some in F. destruct F as [Hin _]. cbn. unfold stop_result. destruct (pc u) as [[| |]|]; (split; [reflexivity|]); exists u; auto.
   - cbn. auto.
